@@ -192,6 +192,81 @@ func TestVerifMetaDaemon(t *testing.T) {
 		grabbed.GetChannel(r.URL.Query().Get("channel"))
 		io.WriteString(w, "ok")
 	})
+	// lockhold / lockrelease: hold the nsqd write lock for a moment. A creation notified meanwhile has both its Notify
+	// goroutine (n.Lock) and lookupLoop (n.RLock, looking the notified name up) queued behind it; on release the reader
+	// goes first (sync.RWMutex), so lookupLoop is done with that notification before the notifier's persist starts
+	var lockCh chan struct{}
+	var lockHeld int32
+	mux.HandleFunc("/lockhold", func(w http.ResponseWriter, r *http.Request) {
+		ch := make(chan struct{})
+		lockCh = ch
+		go func() {
+			n.Lock()
+			atomic.StoreInt32(&lockHeld, 1)
+			<-ch
+			atomic.StoreInt32(&lockHeld, 0)
+			n.Unlock()
+		}()
+		for i := 0; i < 1000 && atomic.LoadInt32(&lockHeld) == 0; i++ {
+			time.Sleep(2 * time.Millisecond)
+		}
+		io.WriteString(w, "ok")
+	})
+	mux.HandleFunc("/lockrelease", func(w http.ResponseWriter, r *http.Request) {
+		// first wait until the notifier and lookupLoop are both queued on the lock
+		for i := 0; i < 1000; i++ {
+			buf := make([]byte, 1<<20)
+			k := runtime.Stack(buf, true)
+			st := string(buf[:k])
+			notifier, loop := false, false
+			for _, g := range strings.Split(st, "\n\n") {
+				if strings.Contains(g, "(*NSQD).Notify.func1") && strings.Contains(g, "RWMutex).Lock") {
+					notifier = true
+				}
+				if strings.Contains(g, "(*NSQD).lookupLoop") && strings.Contains(g, "RWMutex).RLock") {
+					loop = true
+				}
+			}
+			if notifier && loop {
+				break
+			}
+			time.Sleep(2 * time.Millisecond)
+		}
+		if lockCh != nil {
+			close(lockCh)
+			lockCh = nil
+		}
+		io.WriteString(w, "ok")
+	})
+	// notifysettled: every Notify goroutine other than the parked one has either finished or is waiting for the
+	// nsqd lock (i.e. the creation made inside the window has been handed to lookupLoop and decided about persisting)
+	mux.HandleFunc("/notifysettled", func(w http.ResponseWriter, r *http.Request) {
+		for i := 0; i < 600; i++ {
+			buf := make([]byte, 1<<20)
+			k := runtime.Stack(buf, true)
+			undecided := 0
+			loopBlocked := false
+			for _, g := range strings.Split(string(buf[:k]), "\n\n") {
+				if strings.Contains(g, "(*NSQD).lookupLoop") && strings.Contains(g, "RWMutex).RLock") {
+					loopBlocked = true
+				}
+				if strings.Contains(g, "(*NSQD).Notify.func1") && !strings.Contains(g, "verifPoint") &&
+					!strings.Contains(g, "RWMutex).Lock") {
+					undecided++
+				}
+			}
+			if undecided == 0 {
+				io.WriteString(w, "1")
+				return
+			}
+			if loopBlocked { // a notifier cannot hand its object over before the release
+				io.WriteString(w, "lookuploop-blocked")
+				return
+			}
+			time.Sleep(5 * time.Millisecond)
+		}
+		io.WriteString(w, "0")
+	})
 	mux.HandleFunc("/exit", func(w http.ResponseWriter, r *http.Request) {
 		go func() {
 			n.Exit() // graceful shutdown (what SIGTERM does in apps/nsqd); may be parked at a verif point
@@ -730,17 +805,19 @@ func (r *vfMetaRun) race(spec string) {
 // that once the daemon is idle nsqd.dat lists B (checked by the `idle` line that follows).
 func (r *vfMetaRun) window(spec string) {
 	parts := strings.Split(spec, " // ")
-	a, b := strings.Fields(parts[0]), strings.Fields(parts[1]) // b = createchan T C, made through the grabbed topic
+	a, b := strings.Fields(parts[0]), strings.Fields(parts[1]) // both: createchan T C, made through the grabbed topic T
 	const pt = "meta.persist.afterSnapshot"
 	r.lastWindow = spec
-	if g, err := r.get(r.p.ctl, "/grab?topic="+b[1]); err != nil || g != "ok" {
+	if g, err := r.get(r.p.ctl, "/grab?topic="+b[1]); err != nil || g != "ok" || a[1] != b[1] {
 		r.out.Case(strings.Join(a, " "), "window-setup-failed")
 		return
 	}
 	r.get(r.p.ctl, "/hold?point="+pt)
-	ca, ea := r.post(vfMetaOpPath(a))
+	r.get(r.p.ctl, "/lockhold")
+	resA, ea := r.get(r.p.ctl, "/directchan?channel="+url.QueryEscape(a[2]))
+	r.get(r.p.ctl, "/lockrelease") // lookupLoop finishes A's notification first, then A's persist takes the lock
 	parked := false
-	for i := 0; i < 400 && !parked; i++ {
+	for i := 0; i < 1500 && !parked; i++ {
 		if p, _ := r.get(r.p.ctl, "/parked"); p == "1" {
 			parked = true
 		} else {
@@ -748,18 +825,20 @@ func (r *vfMetaRun) window(spec string) {
 		}
 	}
 	resB, eb := r.get(r.p.ctl, "/directchan?channel="+url.QueryEscape(b[2]))
-	time.Sleep(30 * time.Millisecond) // B's Notify goroutine reaches the nsqd lock (or decides not to persist)
+	// wait until B's Notify goroutine has reached the nsqd lock (or has decided not to persist)
+	settled, _ := r.get(r.p.ctl, "/notifysettled")
 	r.get(r.p.ctl, "/release?point="+pt)
-	r.stats["window:parked="+strconv.FormatBool(parked)]++
-	if ea != nil {
-		r.out.Case(strings.Join(a, " "), "http-error: "+ea.Error())
-	} else {
-		r.out.Case(strings.Join(a, " "), strconv.Itoa(ca))
-	}
-	if eb != nil || resB != "ok" {
-		r.out.Case(strings.Join(b, " "), "direct-error")
-	} else {
-		r.out.Case(strings.Join(b, " "), "200")
+	r.stats["window:parked="+strconv.FormatBool(parked)+",settled="+settled]++
+	for _, x := range []struct {
+		w   []string
+		res string
+		err error
+	}{{a, resA, ea}, {b, resB, eb}} {
+		if x.err != nil || x.res != "ok" {
+			r.out.Case(strings.Join(x.w, " "), "direct-error")
+		} else {
+			r.out.Case(strings.Join(x.w, " "), "200")
+		}
 	}
 }
 
@@ -922,10 +1001,10 @@ func vfMetaScript(rng *vfRand, kind int, idx int) []string {
 	case 7: // a creation made while another creation's persist is parked between its snapshot and its write
 		s = append(s, "createtopic t1", "idle")
 		ws := []string{
-			"window createchan t1 c1 // createchan t1 c2",
-			"window createtopic t5 // createchan t1 c3",
-			"window createchan t1 c4 // createchan t1 c5",
-			"window createtopic t6 // createchan t1 c6",
+			"window createchan t1 w1 // createchan t1 w2",
+			"window createchan t1 w3 // createchan t1 w4",
+			"window createchan t1 w5 // createchan t1 wx#ephemeral",
+			"window createchan t1 w6 // createchan t1 w7",
 		}
 		for i := 0; i < 2; i++ {
 			s = append(s, ws[(idx+i)%len(ws)], "idle")
@@ -1035,7 +1114,7 @@ func TestVerifMetaCorr(t *testing.T) {
 	if err != nil {
 		t.Fatal(err)
 	}
-	defer os.RemoveAll(base)
+	defer func() { if os.Getenv("VERIF_KEEP") == "" { os.RemoveAll(base) } }()
 	runs := make([]*vfMetaRun, len(scripts))
 	var wg sync.WaitGroup
 	sem := make(chan struct{}, vfEnvInt("VERIF_PAR", 6))
